@@ -14,12 +14,12 @@ func fmtGradle() *format {
 		id:   "gradlelockfile",
 		path: "gradle.lockfile",
 		pool: []rec{
-			{Name: "org.springframework:spring-core", Version: "5.3.9", Tag: "plain"},
+			{Name: "org.springframework:spring-core", Version: "15.3.9", Tag: "plain"},
 			{Name: "com.google.guava:guava", Version: "31.1-jre", Tag: "qualifier-version"},
 			{Name: "com.google.guava:guava", Version: "30.0-android", Tag: "same-name-second-version"},
 			{Name: "io.netty:netty-transport-native-epoll", Version: "4.1.100.Final", Tag: "final-version"},
 			{Name: "a.b_c-d:e.f_g-h", Version: "2.0.0-rc.1+build", Tag: "corner-alphabet"},
-			{Name: "org.jetbrains.kotlin:kotlin-stdlib-jdk8", Version: "1.9.10", Tag: "kotlin"},
+			{Name: "org.springframework:spring-core1", Version: "5.3.9", Tag: "name+version-concat-equals-plain"},
 		},
 		dims: []dim{
 			{name: "eol", labels: eolLabels},
